@@ -60,6 +60,22 @@ Theorem C18_guarded_mask_irrelevant : forall t m m' p n, prog_guarded p = true -
 Proof. exact guarded_mask_irrelevant. Qed.
 Print Assumptions C18_guarded_mask_irrelevant.
 
+(* the tolerant program check used for the programs that the harness extracts from the Python source on every run: whatever
+   index / boolean / unknown values a program handles on the way, if the check passes then every output is in the precision
+   class of the data, after ANY number of executions of the loop body; the two certification levels of Corr.C18.CExt *)
+Theorem C18_prog2_precision_preserved : forall en p, In (tau en) ctxs -> prog_ok2 en p = true ->
+  forall n s e, In (s, e) (p_outs p) -> strongP (tau en) (eval en (run en p n) e) = true.
+Proof. exact prog2_precision_preserved. Qed.
+Print Assumptions C18_prog2_precision_preserved.
+Theorem C18_ext_ok_any_sound : forall p, ext_ok_any p = true -> forall t m, In t ctxs -> In m mask_dts ->
+  forall n s e, In (s, e) (p_outs p) -> strongP t (eval (mkenv t m) (run (mkenv t m) p n) e) = true.
+Proof. exact ext_ok_any_sound. Qed.
+Print Assumptions C18_ext_ok_any_sound.
+Theorem C18_ext_ok_same_sound : forall p, ext_ok_same p = true -> forall t, In t ctxs ->
+  forall n s e, In (s, e) (p_outs p) -> strongP t (eval (mkenv t t) (run (mkenv t t) p n) e) = true.
+Proof. exact ext_ok_same_sound. Qed.
+Print Assumptions C18_ext_ok_same_sound.
+
 (* the option space: a configuration is valid iff its family is not the documented float64 one (leverage scores); the
    skeleton of a family does not look at the options the family does not have (proved family by family with symbolic option
    values), so the complete enumeration inside Coq runs over the normalised configurations only *)
